@@ -11,13 +11,22 @@
 (*   execution  [ls, enc, out, exc, out2, out3, kept]: out2 = a second     *)
 (*   format+parse of the same list and out3 = a second parse of the same   *)
 (*   encoded string, both made AFTER the caller changed the list that the  *)
-(*   first call returned; kept = the input list was left unchanged         *)
+(*   first call returned; kept = the input list was left unchanged;        *)
+(*   sout = parse_multiline(format_multiline('\n'.join(ls))), ssame =       *)
+(*   format_multiline gave the text format_multiline_lines gave            *)
 (*   1 FormatLines(ls) = enc           DIAGNOSTIC (<<"REJECT", tid, "enc">>)*)
 (*   2 inside the domain of the law (CodecDomain): no exception and        *)
 (*     out = ParseLines(FormatLines(ls)) -- which CopyrightDoc's CodecLaw  *)
 (*     proves to be ls -- and the same for out2, out3; kept.  Outside the  *)
 (*     domain the same comparison is DIAGNOSTIC (<<"REJECT", tid,          *)
 (*     "normal">>).                                                        *)
+(*                                                                         *)
+(* kind = "reject": a text that is not a (valid) machine-readable file, given *)
+(*   to Copyright(..., strict=True) in every input form: the exception      *)
+(*   raised is the one Load gives for the text (NotMachineReadableError:    *)
+(*   no paragraph / first paragraph without Format;                        *)
+(*   MachineReadableFormatError: a paragraph with neither Files nor        *)
+(*   License, a Files paragraph without Copyright or License).             *)
 (*                                                                         *)
 (* kind = "doc": one build -> dump -> strict re-parse -> dump execution    *)
 (*   [start, hdr, ops, order, dump, load, warn, same, edits, load2, same2, *)
@@ -77,6 +86,8 @@ CDec == /\ Tr.kind = "codec" /\ l = 2
         /\ LET explained == /\ Tr.exc = "" /\ Tr.kept
                              /\ Tr.out = ParseLines(FormatLines(Tr.ls))
                              /\ Tr.out2 = Tr.out /\ Tr.out3 = Tr.out
+                             \* the string variants format_multiline / parse_multiline on '\n'.join(ls)
+                             /\ (StrDomain(Tr.ls) => (Tr.sout = Join(Tr.ls) /\ Tr.ssame))
            IN IF CodecDomain(Tr.ls) THEN explained ELSE Note(explained, "normal")
         /\ Advance
         /\ PrintT(<<"ACCEPTED", tid>>)
@@ -87,13 +98,18 @@ Built   == [i \in 1..Len(Tr.order) |-> Ops[Tr.order[i]]]          \* the documen
 ApiOrder == LET ps == Build([i \in 1..Len(Ops) |-> [Ops[i] EXCEPT !.lic = Lic(EmptyLn, <<i>>)]])
             IN [i \in 1..Len(ps) |-> ps[i].lic.text[1]]           \* (paragraphs tagged with their index)
 
+\* (a header read from the deprecated field name Format-Specification has its Format field re-added last)
+ExpectedDump == LET hf == HeaderFields(Tr.hdr)
+                IN DumpFields(IF Tr.fmtlast THEN Tail(hf) \o <<hf[1]>> ELSE hf)
+                   \o Flat([i \in 1..Len(Built) |-> <<SepLn>> \o DumpFields(ParaFields(Built[i]))])
+
 DBuild == /\ Tr.kind = "doc" /\ l = 1
           /\ Note(Tr.order = (IF Tr.start = "api" THEN ApiOrder ELSE [i \in 1..Len(Ops) |-> i]), "order")
           /\ Advance
 DDump  == /\ Tr.kind = "doc" /\ l = 2
           /\ Note([i \in 1..Len(Tr.dump) |->
                      IF Tr.dump[i].f = "" THEN RLine(Tr.dump[i].x) ELSE FLine(Tr.dump[i].f, Tr.dump[i].x)]
-                  = DumpDoc(Tr.hdr, Built), "dump")
+                  = ExpectedDump, "dump")
           /\ Advance
 DLoad  == /\ Tr.kind = "doc" /\ l = 3
           /\ Note(Load([i \in 1..Len(Tr.dump) |->
@@ -116,6 +132,14 @@ DAgain == /\ Tr.kind = "doc" /\ l = 7
           /\ Advance
           /\ PrintT(<<"ACCEPTED", tid>>)
 
-TNext == CEnc \/ CDec \/ DBuild \/ DDump \/ DLoad \/ DRound \/ DSame \/ DEdit \/ DAgain
+\* ---- rejected inputs: every input form of Copyright() must raise what Load predicts for the text
+\*      [dump, err]: abstract physical lines, name of the exception raised ("none" when accepted)
+RLoad == /\ Tr.kind = "reject" /\ l = 1
+         /\ Load([i \in 1..Len(Tr.dump) |->
+                    IF Tr.dump[i].f = "" THEN RLine(Tr.dump[i].x) ELSE FLine(Tr.dump[i].f, Tr.dump[i].x)]).err = Tr.err
+         /\ Advance
+         /\ PrintT(<<"ACCEPTED", tid>>)
+
+TNext == RLoad \/ CEnc \/ CDec \/ DBuild \/ DDump \/ DLoad \/ DRound \/ DSame \/ DEdit \/ DAgain
 TSpec == TInit /\ [][TNext]_tvars
 =============================================================================
